@@ -28,7 +28,7 @@ func init() {
 			"the reference codec is written bit by bit from docs/protocol.md and imports nothing from mieru",
 		},
 		Units:          units,
-		QuickBudget:    60,
+		QuickBudget:    240,
 		ThoroughBudget: 900,
 	})
 }
